@@ -252,9 +252,54 @@ fn w() {
 	},
 }
 
+// spawnBodyTwoWaiters: next to the thread that waits (and consumes the cores' signals) a second
+// host thread waits for the VM to become idle without consuming anything.
+func spawnBodyTwoWaiters(h *hostEnv, prog compiler.CompileOutput) {
+	vm := h.newVM(prog, schedLimits)
+	vm.SpawnAsync(runtime.MainFn(), nil, nil, nil)
+	vsched.GoLow(func() {
+		vm.WaitNonConsuming()
+		h.log("idle-waiter-returned")
+	})
+	_, i := vm.Wait()
+	o := Obs{}
+	classifyVM(&o, i, h.ctx)
+	h.log("wait:%s%s", o.Class, kindSuffix(o.Kind))
+}
+
 func init() {
+	c17Cases = append(c17Cases, schedCase{
+		Name: "a-second-host-thread-waits-for-idle",
+		Source: `fn main() {
+    spawn w(1);
+    println("m");
+}
+fn w(n: int) {
+    println("w", n);
+}
+`,
+		Body: spawnBodyTwoWaiters,
+		Judge: func(o execObs) (string, string) {
+			seen := map[string]bool{}
+			for _, e := range o.Events {
+				seen[e] = true
+			}
+			if !seen["wait:ok"] {
+				return "WAIT:did not return", fmt.Sprintf("events=%q", o.Events)
+			}
+			if !seen["idle-waiter-returned"] {
+				return "WAIT:WaitNonConsuming did not return although every core finished", fmt.Sprintf("events=%q blocked=%v", o.Events, o.Blocked)
+			}
+			if len(o.Blocked) > 0 {
+				return "LEFT-BLOCKED:" + blockedOps(o.Blocked), fmt.Sprintf("blocked=%v", o.Blocked)
+			}
+			return "", ""
+		},
+	})
 	for i := range c17Cases {
-		c17Cases[i].Body = spawnBody
+		if c17Cases[i].Body == nil {
+			c17Cases[i].Body = spawnBody
+		}
 		c17Cases[i].Bound = map[string]int{"quick": 3, "thorough": 4}
 	}
 	register("C17", func() *Check {
